@@ -112,3 +112,68 @@ theorem seen_grammar (k : Ctor) (script : List (Notif Int)) : Grammar (run k noF
         exact hx'
 
 end Ro.ObsPartial
+
+namespace Ro.ObsPartial
+open Ro Ro.ObsNil
+
+/-- the values of a gated script that the value callback returns from normally: invocation `k` (counted from `k0`)
+    panics iff `fault k` is some panic value -/
+def pick (fault : Nat → Option Err) : Nat → List (Notif Int) → List (Notif Int)
+  | _, [] => []
+  | k, v :: vs => (if (fault k).isNone then [v] else []) ++ pick fault (k + 1) vs
+
+def isNextB : Notif Int → Bool
+  | .next _ _ => true
+  | _ => false
+
+theorem closed_trace (fault : Nat → Option Err) (script : List (Notif Int)) (s : St) (hs : s.status ≠ 0) :
+    (script.foldl (step allCbs fault) s).trace = s.trace := by
+  rw [closed_run fault script s hs]
+
+/-- `OnNext` under ANY panic plan of its callback: the callback has returned normally from exactly the values of the gated
+    script whose invocation did not panic, in order — a panic neither closes the observer nor loses a later value (the
+    listed C01/C07 finding about `observerImpl`: the status is not flipped), and it is handed to the empty error callback -/
+theorem seen_onNext_fault_aux (fault : Nat → Option Err) (script : List (Notif Int)) (s : St) (hs : s.status = 0) :
+    (script.foldl (step allCbs fault) s).trace.filter (sees .onNext) =
+      s.trace.filter (sees .onNext) ++ pick fault s.calls ((gate script).filter isNextB) := by
+  induction script generalizing s with
+  | nil => simp [gate, pick]
+  | cons x xs ih =>
+    cases x with
+    | next c v =>
+      cases hf : fault s.calls with
+      | none =>
+        have hst : step allCbs fault s (.next c v) = { s with calls := s.calls + 1, trace := s.trace ++ [.next c v] } := by
+          simp [step, allCbs, hs, hf]
+        rw [List.foldl_cons, hst, ih { s with calls := s.calls + 1, trace := s.trace ++ [.next c v] } hs]
+        simp only [gate, Notif.isTerminal_next, Bool.false_eq_true, if_false, List.filter_append, List.append_assoc]
+        have e1 : List.filter isNextB (Notif.next c v :: gate xs) = Notif.next c v :: List.filter isNextB (gate xs) := by
+          simp [List.filter, isNextB]
+        have e2 : List.filter (sees Ctor.onNext) [Notif.next c v] = [Notif.next c v] := by simp [List.filter, sees]
+        rw [e1, e2]; simp [pick, hf]
+      | some p =>
+        have hst : step allCbs fault s (.next c v) = { s with calls := s.calls + 1, trace := s.trace ++ [.error c (.observer p)] } := by
+          simp [step, allCbs, hs, hf]
+        rw [List.foldl_cons, hst, ih { s with calls := s.calls + 1, trace := s.trace ++ [.error c (.observer p)] } hs]
+        simp only [gate, Notif.isTerminal_next, Bool.false_eq_true, if_false, List.filter_append, List.append_assoc]
+        have e1 : List.filter isNextB (Notif.next c v :: gate xs) = Notif.next c v :: List.filter isNextB (gate xs) := by
+          simp [List.filter, isNextB]
+        have e2 : List.filter (sees Ctor.onNext) [Notif.error c (Err.observer p)] = [] := by simp [List.filter, sees]
+        rw [e1, e2]; simp [pick, hf]
+    | error c e =>
+      have hst : step allCbs fault s (.error c e) = { s with status := 1, trace := s.trace ++ [.error c e] } := by
+        simp [step, allCbs, hs]
+      rw [List.foldl_cons, hst, closed_trace fault xs _ (by simp)]
+      simp [gate, isNextB, pick, sees, List.filter_append]
+    | complete c =>
+      have hst : step allCbs fault s (.complete c) = { s with status := 2, trace := s.trace ++ [.complete c] } := by
+        simp [step, allCbs, hs]
+      rw [List.foldl_cons, hst, closed_trace fault xs _ (by simp)]
+      simp [gate, isNextB, pick, sees, List.filter_append]
+
+theorem seen_onNext_fault (fault : Nat → Option Err) (script : List (Notif Int)) :
+    (run .onNext fault script).seen = pick fault 0 ((gate script).filter isNextB) := by
+  have h := seen_onNext_fault_aux fault script {} rfl
+  simpa [run, faultOf, ObsNil.run] using h
+
+end Ro.ObsPartial
